@@ -896,3 +896,7 @@ v("c05-drain-in-try", "C05", "DRAIN-GUARDED", E + "executor.py",
   "    awaitables: list[Awaitable[Any]] = []\n    with suppress_exceptions:\n        awaitables.extend(item for item in iterator if is_awaitable(item))\n    return awaitables\n",
   "    awaitables: list[Awaitable[Any]] = []\n    try:\n        for item in iterator:\n            if is_awaitable(item):\n                awaitables.append(item)\n    except Exception:  # noqa: BLE001\n        pass\n    return awaitables\n",
   expect="silent")
+v("c05-prune-considers-undelivered-tasks", "C05", "PRUNE-UNDELIVERED", E + "incremental/work_queue.py",
+  "                if new_group_node.pending:\n                    non_empty_new_groups.append(new_group)\n",
+  "                if new_group_node.pending or (\n                    new_group_node.tasks and new_group_node.child_groups\n                ):\n                    non_empty_new_groups.append(new_group)\n",
+  expect="silent")
